@@ -11,8 +11,8 @@
 //!   * `overflow`: lets the real `BuffersBuilder` overflow at the k-th vertex (initial vertex
 //!                 count = MAX + 1 - k).
 //! IMPL prints, per k, the returned `Result`, the call trace seen by the recorder and the final
-//! buffers; the model predicts all of it (fill, shapes: whole trace; stroke: trace up to the first
-//! refusal, events pulled, terminator, result, buffers).  ORCL checks the property on the real
+//! buffers; the model predicts all of it (whole trace for fill, stroke and shapes; for stroke also
+//! the number of events pulled from the input iterator).  ORCL checks the property on the real
 //! runs directly.
 //!
 //! Families: `fill`, `stroke`, `shape` (fill_rectangle / fill_circle fast paths), `bb` (arbitrary
@@ -275,7 +275,8 @@ impl SinkSpec {
     fn gen(rng: &mut Rng, allow_off: bool) -> SinkSpec {
         let ty = *rng.pick(&TYPES);
         let max = type_max(ty);
-        let overflow = ty != "noout" && max <= 70_000 && rng.chance(1, 2);
+        // (16-bit overflow needs 65k-element initial buffers per fault position: sampled more thinly)
+        let overflow = ty != "noout" && max <= 70_000 && rng.chance(1, if max > 1000 { 6 } else { 2 });
         let init_nv = if ty == "noout" { 0 } else { rng.below(12.min(max + 1)) };
         let n_idx = if ty == "noout" { 0 } else { 3 * rng.below(4) };
         let init_idx = (0..n_idx).map(|_| rng.below(100) as u32).collect();
@@ -477,6 +478,18 @@ enum Kind {
     Fill,
     Stroke,
     Shape,
+}
+
+/// `begin`, vertex/triangle calls, one terminator matching the result, first refusal returned.
+fn protocol_ok(calls: &[Call], result: &TessellationResult) -> bool {
+    if calls.len() < 2 || calls[0] != Call::Begin {
+        return false;
+    }
+    let body = &calls[1..calls.len() - 1];
+    let term = calls[calls.len() - 1];
+    let shape = body.iter().all(|c| matches!(c, Call::V(_) | Call::T(..))) && ((result.is_ok() && term == Call::End) || (result.is_err() && term == Call::Abort));
+    let first = calls.iter().find_map(|c| if let Call::V(Err(e)) = c { Some(*e) } else { None });
+    shape && first.map_or(true, |e| *result == Err(TessellationError::GeometryBuilder(e)))
 }
 
 fn oracle_run(orc: &mut Oracle, kind: Kind, site: &str, spec: &SinkSpec, k: u32, r: &RunRec) {
@@ -700,7 +713,6 @@ fn stroke_options(rng: &mut Rng) -> StrokeOptions {
 // one fault-enumeration case
 
 /// Runs the reference + every k; prints IMPL tokens; evaluates the oracle.
-/// `stroke`: print only the trace up to the first refusal + terminator (the rest is not predicted).
 fn enumerate(kind: Kind, site: &str, spec: &SinkSpec, ks: &[u32], job: &Job) -> CaseOut {
     let mut o = Out::new();
     let mut orc = Oracle::new();
@@ -718,23 +730,12 @@ fn enumerate(kind: Kind, site: &str, spec: &SinkSpec, ks: &[u32], job: &Job) -> 
         if !r.panicked {
             let calls: Vec<Call> = r.trace.iter().copied().filter(|c| *c != Call::Ev).collect();
             if kind == Kind::Stroke {
-                let cut = calls.iter().position(|c| matches!(c, Call::V(Err(_))));
-                let pre = match cut {
-                    Some(i) => &calls[..=i],
-                    None => &calls[..calls.len().saturating_sub(1)],
-                };
                 // events handed out before the terminator
                 o.t("pulled").u(r.trace.iter().filter(|c| **c == Call::Ev).count() as u64);
-                o.t("pre");
-                for c in pre {
+                o.t("trace");
+                for c in &calls {
                     put_call(&mut o, c);
                 }
-                o.t("term");
-                match calls.last() {
-                    Some(Call::End) => o.t("E"),
-                    Some(Call::Abort) => o.t("A"),
-                    _ => o.t("none"),
-                };
             } else {
                 o.t("trace");
                 for c in &calls {
@@ -742,6 +743,9 @@ fn enumerate(kind: Kind, site: &str, spec: &SinkSpec, ks: &[u32], job: &Job) -> 
                 }
             }
             put_buffers(&mut o, &r);
+            // the protocol predicate itself, evaluated here and by the Lean checker `protocolB`
+            // (proved equivalent to `Protocol`) on the model's trace
+            o.t("wf").b(protocol_ok(&calls, r.result.as_ref().unwrap()));
         }
         oracle_run(&mut orc, kind, site, spec, k, &r);
     }
@@ -1041,8 +1045,8 @@ fn main() {
             if entry == "vw" {
                 opts = opts.with_variable_line_width(0);
             }
-            let mut spec = SinkSpec::gen(rng, false);
-            spec.off = 0;
+            // (a vertex offset is safe since lyon 4ae25521: no VertexId::INVALID reaches add_triangle)
+            let spec = SinkSpec::gen(rng, true);
             let shape = (
                 point(rng.range(-4, 4) as f32, rng.range(-4, 4) as f32),
                 vector(rng.range(0, 6) as f32 * 0.5, rng.range(0, 6) as f32 * 0.5),
